@@ -169,4 +169,17 @@ theorem sync_marker_block_ends_on_a_byte_boundary (pos : Nat) :
 example : ({ out := [], buf := 5, n := 3 } : BW).Inv := by unfold BW.Inv; decide
 example : (syncMarker { out := [7], buf := 5, n := 3 }).out = [7, 5, 0, 0, 255, 255] := by decide +kernel
 
+-- the hypotheses of the flush-point theorem are satisfiable: the sync marker alone (what a sync flush of
+-- an empty raw compressor writes), the five bytes 00 00 00 FF FF
+open Model.Core Spec in
+example : PrefixOk 32768 #[] [encStored false []] ∧
+    HasBits #[0, 0, 0, 255, 255] 0 (blocksBits 0 [encStored false []]) ∧
+    (blocksBits 0 [encStored false []]).length = 8 * (#[0, 0, 0, 255, 255] : Array UInt8).size := by
+  refine ⟨⟨rfl, .stored false [] (by simp) (by simp), trivial, trivial⟩, ?_, by decide⟩
+  intro i hi
+  have hl : (blocksBits 0 [encStored false []]).length = 40 := by decide
+  rw [hl] at hi
+  have : ∀ j : Fin 40, bitAt #[0, 0, 0, 255, 255] (0 + j.val) = some ((blocksBits 0 [encStored false []]).getD j.val 0) := by decide
+  exact this ⟨i, hi⟩
+
 end C12
